@@ -241,12 +241,12 @@ def run_e2e(spec):
         return True
 
     try:
-        run_with_watchdog(case, budget_s=120, what='socket end-to-end', hang_retries=0, hang_is_violation=False)
+        run_with_watchdog(case, budget_s=60, what='socket end-to-end', hang_retries=0, hang_is_violation=False)
     except Inconclusive:
         # a wedged connection: decide from what was (not) delivered below; restart the shared server for the next case
         _SERVER.clear()
         missing = [i for i, o in enumerate(spec['owners']) if o != spec['nthreads'] and i not in results]
-        raise Violation('request_unanswered', f'requests {missing} never got a response (client did not finish within 120 s)', signature=['request_unanswered'])
+        raise Violation('request_unanswered', f'requests {missing} never got a response (client did not finish within 60 s)', signature=['request_unanswered'])
 
     def judge(i, kind, y):
         r = spec['reqs'][i]
@@ -381,6 +381,6 @@ RULE = (
 
 FAMILIES = [
     Family('F1_framing', 'pure', framing_spec(), run_framing, quick=4000, thorough=400_000, shards_quick=8, rule=RULE, fuzz=('mpservice.socket',)),
-    Family('F2_socket_end_to_end', 'real', e2e_spec(), run_e2e, quick=96, thorough=4000, shards_quick=12, shards_thorough=16, rule=RULE, shrink=False, teardown=_stop_server),
+    Family('F2_socket_end_to_end', 'real', e2e_spec(), run_e2e, quick=72, thorough=4000, shards_quick=12, shards_thorough=16, rule=RULE, shrink=False, teardown=_stop_server),
     Family('F3_named_pipe', 'real', pipe_spec(), run_pipe, quick=120, thorough=5000, shards_quick=4, shards_thorough=8, rule=RULE, shrink=False),
 ]
